@@ -42,6 +42,7 @@ class StubES(torch.nn.Module):
         energy = types.SimpleNamespace(
             md=False,
             namd=False,
+            xlesmd=False,
             excited_states=seqm_parameters.get("excited_states"),
             method=seqm_parameters.get("method"),
             hamiltonian=types.SimpleNamespace(eps=None),
@@ -77,7 +78,10 @@ class StubES(torch.nn.Module):
             molecule.dP2dt2 = molecule.dm - P0
         else:
             molecule.dm = Dstar
-        exc = self.seqm_parameters.get("excited_states")
+        # as in the real Energy module: excited states are computed when the energy module holds the settings, or in
+        # XL-ESMD mode (where the engine sets them to None after its initial evaluation)
+        en = self.conservative_force.energy
+        exc = en.excited_states if en.excited_states is not None else (self.seqm_parameters.get("excited_states") if en.xlesmd else None)
         if isinstance(exc, dict) and "n_states" in exc:
             # synthetic excited-state bookkeeping (amplitudes, transition densities, state energies) with a linear
             # response to the amplitudes / transition densities handed in, so that the engines' excited-state
